@@ -1,7 +1,7 @@
 (* PropC09.v — C09: frame payload damage costs only the entry it hits (stream level: the record reader over the blocks the writer produced, any block size, any checksum function; 'damaged' = checksum and/or payload bytes of a frame replaced so that the CRC check fails, length and type intact).
    Statements only; each theorem is closed by `exact <lemma>`; proofs live in the imported files. *)
 From Coq Require Import Lia NArith List.
-From MRL Require Import Bytes Params Frame Driver StreamProofs DamageProofs.
+From MRL Require Import Bytes Params Names Frame Record Mem Rolling Log Driver StreamProofs DamageProofs ReplaySpec DeletionSim GhostLog OpenReplay DamageFile.
 
 (* one frame: a CRC failure leaves the reader exactly where the intact frame would have left it, without flagging the block *)
 Theorem C09_bad_crc_frame :
@@ -57,7 +57,7 @@ Theorem C09_general :
     (let out := mem_read_stream P (mem_stream P t) in
     out = flat_map (entry_out P) pxs ++ [MrEnd] /\
     delivered out = map fst (filter (intact P) pxs) /\
-    sublist (delivered out) (map fst pxs) /\
+    DamageProofs.sublist (delivered out) (map fst pxs) /\
     corruptions out =
     fold_right PeanoNat.Nat.add 0%nat (map (fun px : bytes * list fspec => countbad P (snd px)) pxs)).
 Proof. exact C09_general. Qed.
@@ -73,4 +73,127 @@ Theorem C09_damage_exists :
     enc_rel P a f p e k -> exists e' : bytes, enc_dmg P a f p e e' k.
 Proof. exact enc_dmg_exists. Qed.
 Print Assumptions C09_damage_exists.
+
+(* through the files and open: with one entry X damaged (any frame, CRC fails), open replays exactly the other entries lying in the kept files, in order, and the end of the log does not move *)
+Theorem C09_open_one_damaged :
+    forall P : params,
+    7 < BS P ->
+    BS P <= 65542 ->
+    1 <= NB P ->
+    (forall (t : byte) (p : bytes), crcf P t p < 2 ^ 32) ->
+    forall (fs : fsT) (lo : N) (n : nat),
+    (forall f : N,
+    In f (GcProofs.iota lo (S n)) ->
+    exists b : bytes, fs_get fs (filename f) = Some (FFile b) /\ lenN b = FILE_BYTES P) ->
+    forall (base : N) (E1 : list entry) (X : entry) (E2 : list entry) (t1 ex0 ed : bytes)
+    (k : nat) (t2 : bytes) (z : N) (pol : policy) (hint : list bytes),
+    L_IO P = false ->
+    base <= lo ->
+    list_wal_numbers fs = GcProofs.iota lo (S n) ->
+    Forall RecordProofs.wf_entry (E1 ++ X :: E2) ->
+    encs_rel P 0 (map entry_ser E1) t1 ->
+    enc_dmg P (lenN t1) true (entry_ser X) ex0 ed k ->
+    encs_rel P (lenN t1 + lenN ex0) (map entry_ser E2) t2 ->
+    FileStream.stream_of fs (GcProofs.iota lo (S n)) =
+    dropN ((lo - base) * FILE_BYTES P) ((t1 ++ ed ++ t2) ++ zerosN z) ->
+    lenN ((t1 ++ ed ++ t2) ++ zerosN z) = (lo + N.of_nat n - base + 1) * FILE_BYTES P ->
+    let b := (lo - base) * FILE_BYTES P in
+    b <= ResyncProofs.first_frame_pos P (lenN t1) ->
+    exists (w0 : rwriter) (tags : list N) (E1_pre E1_suf : list entry),
+    E1 = E1_pre ++ E1_suf /\
+    map entry_ser E1_pre = ResyncProofs.skipped_before P b 0 (map entry_ser (E1 ++ X :: E2)) /\
+    map entry_ser (E1_suf ++ X :: E2) =
+    ResyncProofs.delivered_from P b 0 (map entry_ser (E1 ++ X :: E2)) /\
+    lenN (t1 ++ ed ++ t2) = lenN (t1 ++ ex0 ++ t2) /\
+    dmg_spec P fs lo n base w0 tags
+    (ResyncProofs.starts P (ResyncProofs.cursor_after P 0 (map entry_ser E1_pre))
+    (map entry_ser E1_suf) ++ ResyncProofs.starts P (lenN t1 + lenN ex0) (map entry_ser E2))
+    (N.max b (lenN (t1 ++ ex0 ++ t2))) /\
+    match replay_entries [] (combine tags (E1_suf ++ E2)) with
+    | Some qs => open P fs None pol hint = open_finish P w0 qs pol hint
+    | None => exists c : ioctx, open P fs None pol hint = OpenCorruption c
+    end.
+Proof. exact open_one_damaged. Qed.
+Print Assumptions C09_open_one_damaged.
+
+(* any number of damaged frames: open replays exactly the entries all of whose frames are intact *)
+Theorem C09_open_damaged :
+    forall P : params,
+    7 < BS P ->
+    BS P <= 65542 ->
+    1 <= NB P ->
+    (forall (t : byte) (p : bytes), crcf P t p < 2 ^ 32) ->
+    forall (fs : fsT) (lo : N) (n : nat),
+    (forall f : N,
+    In f (GcProofs.iota lo (S n)) ->
+    exists b : bytes, fs_get fs (filename f) = Some (FFile b) /\ lenN b = FILE_BYTES P) ->
+    forall (base : N) (E_all : list entry) (pxs : list (bytes * list fspec)) (T' : bytes)
+    (z : N) (pol : policy) (hint : list bytes),
+    L_IO P = false ->
+    base <= lo ->
+    list_wal_numbers fs = GcProofs.iota lo (S n) ->
+    Forall RecordProofs.wf_entry E_all ->
+    map fst pxs = map entry_ser E_all ->
+    encs_any P 0 pxs T' ->
+    FileStream.stream_of fs (GcProofs.iota lo (S n)) = dropN ((lo - base) * FILE_BYTES P) (T' ++ zerosN z) ->
+    lenN (T' ++ zerosN z) = (lo + N.of_nat n - base + 1) * FILE_BYTES P ->
+    let b := (lo - base) * FILE_BYTES P in
+    exists
+    (w0 : rwriter) (tags : list N) (E_pre E_suf : list entry) (pxs1 pxs2 : list (bytes * list fspec)),
+    E_all = E_pre ++ E_suf /\
+    pxs = pxs1 ++ pxs2 /\
+    map fst pxs1 = map entry_ser E_pre /\
+    map fst pxs2 = map entry_ser E_suf /\
+    map entry_ser E_pre = ResyncProofs.skipped_before P b 0 (map entry_ser E_all) /\
+    map entry_ser E_suf = ResyncProofs.delivered_from P b 0 (map entry_ser E_all) /\
+    lenN T' = lenN (ResyncProofs.encs_of P 0 (map entry_ser E_all)) /\
+    (let E_ok := ok_entries P pxs2 E_suf in
+    dmg_spec P fs lo n base w0 tags
+    (ok_sts P (ResyncProofs.cursor_after P 0 (map entry_ser E_pre)) pxs2)
+    (N.max b (lenN T')) /\
+    match replay_entries [] (combine tags E_ok) with
+    | Some qs => open P fs None pol hint = open_finish P w0 qs pol hint
+    | None => exists c : ioctx, open P fs None pol hint = OpenCorruption c
+    end).
+Proof. exact open_damaged. Qed.
+Print Assumptions C09_open_damaged.
+
+(* entry level: replaying a legal log with one entry removed never fails, and every record of the full replay that was not appended by the lost entry is recovered with the same position and payload (a lost truncate or delete may leave MORE records; next positions never run ahead) *)
+Theorem C09_replay_tolerates_lost_entry :
+    forall (fA fB fA' fB' : list (N * entry)) (fx : N * entry) (F : tmap),
+    let A := map snd fA in
+    let B := map snd fB in
+    let x := snd fx in
+    map snd fA' = A ->
+    map snd fB' = B ->
+    legal_log [] 0 (A ++ x :: B) ->
+    t_replay [] 0 (A ++ x :: B) = Some F ->
+    exists qF qD : queues,
+    replay_entries [] (fA ++ fx :: fB) = Some qF /\
+    replay_entries [] (fA' ++ fB') = Some qD /\
+    SpecRefine.qs_inv qF /\
+    SpecRefine.qs_inv qD /\
+    SpecRefine.abs_qs qF = untag F /\
+    (forall (q : bytes) (rf : list trec) (nf : N),
+    t_get F q = Some (rf, nf) ->
+    (exists mF : mq,
+    qs_get qF q = Some mF /\
+    records_of (q_buf mF) (q_metas mF) = map snd rf /\ next_position mF = nf) /\
+    (forall r : trec,
+    In r rf ->
+    fst r <> length A ->
+    exists mD : mq, qs_get qD q = Some mD /\ In (snd r) (records_of (q_buf mD) (q_metas mD))) /\
+    (forall mD : mq,
+    qs_get qD q = Some mD ->
+    sublist (map snd (filter (not_x (length A)) rf)) (records_of (q_buf mD) (q_metas mD)) /\
+    next_position mD <= nf)).
+Proof. exact model_deletion. Qed.
+Print Assumptions C09_replay_tolerates_lost_entry.
+
+(* the damaged replay cannot fail (no append is ever 'in the past') *)
+Theorem C09_deletion_replay_some :
+    forall (A B : list entry) (x : entry),
+    legal_log [] 0 (A ++ x :: B) -> exists D : tmap, t_replay_skip A B = Some D.
+Proof. exact deletion_replay_some. Qed.
+Print Assumptions C09_deletion_replay_some.
 
